@@ -311,6 +311,14 @@ func (x *fx) execute(loopWrites map[int]*loopInfo) {
 				x.backEdge(x.loops[s.Index], b, edgePC[[2]int{b.Index, s.Index}])
 			}
 		}
+		// loop exits (assert exit=N)
+		for _, s := range b.Succs {
+			for _, li := range x.loopList {
+				if li.body[b.Index] && !li.body[s.Index] && s == loopDone(li) {
+					x.exitEdge(li, b, edgePC[[2]int{b.Index, s.Index}])
+				}
+			}
+		}
 	}
 	x.curBlock = nil
 	// collect loop write sets for the second pass
@@ -601,6 +609,27 @@ func (x *fx) loopHeader(li *loopInfo, phiEntry map[*ssa.Phi]*Val) {
 		m := x.eval(cl.E, envH)
 		x.measures[li.header.Index] = append(x.measures[li.header.Index], x.toMath(m))
 	}
+	for _, cl := range x.c.Asserts {
+		if cl.Kind == "assert:back$" && cl.Loop == li.ordinal {
+			var walk func(e *Expr)
+			walk = func(e *Expr) {
+				if e == nil {
+					return
+				}
+				if e.Op == "athead" {
+					if x.atHead == nil {
+						x.atHead = map[*Expr]*Val{}
+					}
+					x.atHead[e] = x.eval(e.Args[0], envH)
+					return
+				}
+				for _, a := range e.Args {
+					walk(a)
+				}
+			}
+			walk(cl.E)
+		}
+	}
 	if len(invs) == 0 {
 		x.warnings = append(x.warnings, fmt.Sprintf("loop %d has no invariant (everything it assigns is havocked)", li.ordinal))
 	}
@@ -640,6 +669,46 @@ func (x *fx) basePreserved(li *loopInfo, phi *ssa.Phi) bool {
 		}
 	}
 	return true
+}
+
+// loopDone: the block the loop's own condition exits to (the successor of the header
+// outside the loop), nil for a loop without a condition.
+func loopDone(li *loopInfo) *ssa.BasicBlock {
+	for _, s := range li.header.Succs {
+		if !li.body[s.Index] {
+			return s
+		}
+	}
+	return nil
+}
+
+// exitEdge: assert exit=N clauses, on an edge from a block of loop N to the block the
+// loop's condition exits to; the locals are named as at the end of the block left.
+func (x *fx) exitEdge(li *loopInfo, from *ssa.BasicBlock, pc string) {
+	if pc == "" || len(from.Instrs) == 0 {
+		return
+	}
+	savePC := x.curPC
+	x.curPC = pc
+	if x.exitCount == nil {
+		x.exitCount = map[int]int{}
+	}
+	x.exitCount[li.ordinal]++
+	for k, cl := range x.c.Asserts {
+		if cl.Kind != "assert:exit$" || cl.Loop != li.ordinal {
+			continue
+		}
+		if x.assertSeen == nil {
+			x.assertSeen = map[int]bool{}
+		}
+		x.assertSeen[k] = true
+		env := x.instrEnv(from.Instrs[len(from.Instrs)-1])
+		g := x.evalBool(cl.E, env)
+		if o := x.oblige("assert", fmt.Sprintf("exit#%d:%s:e%d", li.ordinal, clauseLabel(cl, k), x.exitCount[li.ordinal]), g, fmt.Sprintf("assertion where loop %d is left: %s", li.ordinal, cl.Src)); o != nil {
+			o.Src, o.Line = cl.Src, cl.Line
+		}
+	}
+	x.curPC = savePC
 }
 
 func (x *fx) backEdge(li *loopInfo, from *ssa.BasicBlock, pc string) {
